@@ -401,8 +401,12 @@ def timedelta(s):
             seconds = val
         else:
             raise TypeError(f'bad part {part} in {s}')
-    return datetime.timedelta(weeks=weeks, days=days, hours=hours,
-                              minutes=minutes, seconds=seconds)
+    try:
+        return datetime.timedelta(weeks=weeks, days=days, hours=hours,
+                                  minutes=minutes, seconds=seconds)
+    except OverflowError as e:
+        # e.g. '9e9w' or 'infd': out of range for datetime.timedelta
+        raise ValueError(f'{e} in {s}')
 
 
 stock_datatypes = {
